@@ -361,7 +361,7 @@ func c10(c *core.Ctx) {
 	}
 
 	// ---------------------------------------------------------------- R3
-	if c.Rule("R3", "metadata is copied, not shared: the MD given to NewIncomingContext is the direct result of metadata.FromOutgoingContext with no store into it", 1) {
+	if c.Rule("R3", "metadata is copied, not shared: the MD given to NewIncomingContext is the direct result of metadata.FromOutgoingContext with no store into it, and that copy is taken before the call entry point can return (no go statement between an entry point and the read)", 1) {
 		n := 0
 		for _, fn := range p.LibFuncs("inprocgrpc") {
 			for _, nic := range core.CallsIn(fn, func(_ *ssa.Call, ci core.CallInfo) bool { return ci.Is(metadataPkg + ".NewIncomingContext") }) {
@@ -396,12 +396,29 @@ func c10(c *core.Ctx) {
 		if n == 0 {
 			c.Missing("metadata.NewIncomingContext in inprocgrpc")
 		}
+		// the snapshot is taken before the call entry point can return: on a network the headers have left by
+		// then, and the caller owns (and may rewrite) its metadata again. So no `go` statement lies between an
+		// entry point and the read of the caller's outgoing metadata.
+		for _, fn := range p.LibFuncs("inprocgrpc") {
+			for _, fo := range core.CallsIn(fn, func(_ *ssa.Call, ci core.CallInfo) bool { return ci.Is(metadataPkg + ".FromOutgoingContext") }) {
+				key := core.FuncName(fn) + ":md-snapshot-before-return"
+				async, und := launchedAsync(p, fn, map[*ssa.Function]bool{}, 0)
+				switch {
+				case async != "":
+					c.Fail(key, fo.Pos(), "the caller's outgoing metadata is read on a goroutine (%s): the snapshot is taken after the call may have returned to the caller, who owns the metadata again — a later change shows up in the handler and races with the copy", async)
+				case und != "":
+					c.Undecided(key, fo.Pos(), "cannot decide whether the metadata snapshot runs before the entry point returns: %s", und)
+				default:
+					c.Ok(key, fo.Pos(), "every call chain from an entry point to this read is synchronous (no go statement on the way)")
+				}
+			}
+		}
 		_ = mdVals
 		c.EndRule()
 	}
 
 	// ---------------------------------------------------------------- R4
-	if c.Rule("R4", "peer and back-door: peer.NewContext gets the package's in-process peer; the private key is referenced only by the attach site and the accessor, which returns the stored value through a comma-ok assertion", 3) {
+	if c.Rule("R4", "peer and back-door: peer.NewContext gets the package's in-process peer; the private key is referenced only by the attach site and the accessor, which returns the stored value of one lookup on its argument through a comma-ok assertion", 3) {
 		for _, fn := range p.LibFuncs("inprocgrpc") {
 			for _, pc := range core.CallsIn(fn, func(_ *ssa.Call, ci core.CallInfo) bool { return ci.Is(peerPkg + ".NewContext") }) {
 				_, isGlobal := core.Strip(pc.Call.Args[1]).(*ssa.Global)
@@ -447,6 +464,10 @@ func c10(c *core.Ctx) {
 							okAcc = true
 						}
 					}
+					// one lookup, on the context it was given: a lookup on a context that was itself looked up
+					// (a loop to the outermost caller) returns some other call's context when calls nest
+					_, onParam := core.Strip(vc.Call.Value).(*ssa.Parameter)
+					c.Check(onParam, "key:"+g.Name()+":accessor-single-lookup", vc.Pos(), "the accessor looks the key up on the context it was given", "the accessor looks the key up on a context other than its argument (a repeated lookup): for a call made from inside another in-process handler it returns the enclosing call's client context, not this call's")
 				}
 			}
 			c.Check(okAcc, "key:"+g.Name()+":accessor", g.Pos(), "accessor reads the key and type-asserts with comma-ok", "no accessor reading the private key with a comma-ok assertion to context.Context")
@@ -459,3 +480,78 @@ func c10(c *core.Ctx) {
 }
 
 func withValueCallOf(v ssa.Value) *ssa.Call { return nil }
+
+// launchedAsync reports whether some call chain from an entry point to fn
+// passes a go statement (async: a description of it), or cannot be followed
+// (und). Deferred and direct calls are synchronous.
+func launchedAsync(p *core.Prog, fn *ssa.Function, seen map[*ssa.Function]bool, depth int) (async, und string) {
+	if fn == nil || seen[fn] || depth > 12 {
+		return "", ""
+	}
+	seen[fn] = true
+	if isEntryFunc(fn) {
+		return "", ""
+	}
+	if par := fn.Parent(); par != nil {
+		// a closure: how is it used in its parent?
+		used := false
+		var res, ures string
+		core.Instrs(par, func(in ssa.Instruction) {
+			mc, ok := in.(*ssa.MakeClosure)
+			if !ok || mc.Fn != fn {
+				return
+			}
+			for _, r := range core.Refs(mc) {
+				used = true
+				switch x := r.(type) {
+				case *ssa.Go:
+					if x.Call.Value == ssa.Value(mc) {
+						res = "closure started with go in " + core.FuncName(par)
+					} else {
+						ures = "closure passed to a goroutine in " + core.FuncName(par)
+					}
+				case *ssa.Call:
+					if x.Call.Value != ssa.Value(mc) {
+						ures = "closure passed to " + core.InfoOf(&x.Call).Full() + " in " + core.FuncName(par)
+					}
+				case *ssa.Defer:
+				default:
+					ures = "closure stored in " + core.FuncName(par)
+				}
+			}
+		})
+		if res != "" {
+			return res, ""
+		}
+		if ures != "" {
+			return "", ures
+		}
+		if !used {
+			return "", ""
+		}
+		return launchedAsync(p, par, seen, depth+1)
+	}
+	for _, caller := range p.LibFuncs("") {
+		var res string
+		hit := false
+		core.Instrs(caller, func(in ssa.Instruction) {
+			cc := core.CallOf(in)
+			if cc == nil || core.InfoOf(cc).Static != fn {
+				return
+			}
+			hit = true
+			if _, isGo := in.(*ssa.Go); isGo {
+				res = "started with go in " + core.FuncName(caller)
+			}
+		})
+		if res != "" {
+			return res, ""
+		}
+		if hit {
+			if a, u := launchedAsync(p, caller, seen, depth+1); a != "" || u != "" {
+				return a, u
+			}
+		}
+	}
+	return "", ""
+}
